@@ -1,0 +1,8 @@
+//go:build verif
+
+package parser
+
+// VerifSplitFunc exposes splitFunc to the verification harness.
+func VerifSplitFunc(data []byte, atEOF bool) (advance int, token []byte, err error) {
+	return splitFunc(data, atEOF)
+}
